@@ -553,11 +553,14 @@ int tls_sign_server_ecdh_params(const SM2_KEY *server_sign_key,
 	server_ecdh_params[3] = 65;
 	sm2_z256_point_to_uncompressed_octets(point, server_ecdh_params + 4);
 
-	sm2_sign_init(&sign_ctx, server_sign_key, SM2_DEFAULT_ID, SM2_DEFAULT_ID_LENGTH);
-	sm2_sign_update(&sign_ctx, client_random, 32);
-	sm2_sign_update(&sign_ctx, server_random, 32);
-	sm2_sign_update(&sign_ctx, server_ecdh_params, 69);
-	sm2_sign_finish(&sign_ctx, sig, siglen);
+	if (sm2_sign_init(&sign_ctx, server_sign_key, SM2_DEFAULT_ID, SM2_DEFAULT_ID_LENGTH) != 1
+		|| sm2_sign_update(&sign_ctx, client_random, 32) != 1
+		|| sm2_sign_update(&sign_ctx, server_random, 32) != 1
+		|| sm2_sign_update(&sign_ctx, server_ecdh_params, 69) != 1
+		|| sm2_sign_finish(&sign_ctx, sig, siglen) != 1) {
+		error_print();
+		return -1;
+	}
 
 	return 1;
 }
